@@ -12,6 +12,7 @@ EXPLANATION = (
     "(R6) every described link becomes a channel with its parameters, and only links do; (R7) the elaboration order's readiness predicate accepts a dependency only if it is in the provider set. "
     '(R8) the position stack of the endpoint expansion is pushed once and popped once around each descent; (R9) every successful transform_submodule path has seen a non-zero cluster size. '
     "(R9 also: a type argument list has the arity its declaration has; R10, shared with C08.R4: a link between gates that are already connected to each other changes nothing, tested before the capacity test.) "
+    '(R9 also: generic bindings are resolved for argument-less types only; a type argument is looked up as written.) '
     "Decides these necessary conditions only; "
     "not that the built simulation equals the description.")
 ASSUMPTIONS = ["serde_yml itself does not panic on malformed documents", "documents reach the front end only through serde (FromStr/Deserialize impls) and transform()"]
